@@ -68,7 +68,10 @@ def _case(draw):
     if not longn and not vsep and draw(st.integers(0, 2)) == 0:
         _add_cap_furniture(draw, site)
     return {"full": full, "gopher_ok": gopher_ok, "vsep": vsep, "site": site, "long": longn, "linkfiles": nlinks,
-            "cache": draw(st.booleans()), "forms": draw(st.integers(0, len(CRAWL_FORMS) - 1))}
+            "cache": draw(st.booleans()), "forms": draw(st.integers(0, len(CRAWL_FORMS) - 1)),
+            # symbolic links in the root menu whose targets lie outside the document root (the server is not chrooted here):
+            # they are listed, so they must be served
+            "outlinks": draw(st.sampled_from([0, 0, 0, 1, 2, 3]))}
 
 
 def _add_cap_furniture(draw, site):
@@ -228,6 +231,24 @@ def check_case(case, ctx):
     objs = sites.objects(items)
     d, root = world.build(spec)
     try:
+        out = case.get("outlinks", 0)
+        taken = {e[0] for e in items}
+        if out and not ({"zz out.txt", "zz-outdir"} & taken):
+            import os
+            od = os.path.join(d, "elsewhere")
+            os.makedirs(os.path.join(od, "sub"))
+            for rel, content in (("o.txt", "outside file\n"), ("sub/inner.txt", "inner outside\n")):
+                with open(os.path.join(od, rel), "w") as fp:
+                    fp.write(content)
+            objs = list(objs)
+            if out & 1:
+                os.symlink(os.path.join(od, "o.txt") if case["cache"] else "../elsewhere/o.txt", os.path.join(root, "zz out.txt"))
+                objs.append({"sel": "/zz out.txt", "kind": "doc", "what": "txt", "content": "outside file\n"})
+            if out & 2:
+                os.symlink(os.path.join(od, "sub"), os.path.join(root, "zz-outdir"))
+                objs.append({"sel": "/zz-outdir", "kind": "menu", "what": "dir", "content": None})
+                objs.append({"sel": "/zz-outdir/inner.txt", "kind": "doc", "what": "txt", "content": "inner outside\n"})
+            ctx.label("links-leaving-the-root")
         cfg = drive.make_config(root, "full" if full else "shipped",
                                 **{"handlers.dir.DirHandler::cachetime": "180" if case["cache"] else "0"})
         forms = CRAWL_FORMS[case["forms"]]
